@@ -9,6 +9,7 @@ import (
 	"encoding/json"
 	"errors"
 	"fmt"
+	"io"
 	"net"
 	"net/netip"
 	"os"
@@ -51,16 +52,28 @@ type udpDatagram struct {
 	From  int
 	It    item
 	GapMs int
+	Near  bool // acceptable answer of 1200..1232 bytes (just inside the size the resolver advertises)
+	Over  bool // acceptable answer of 1233..1472 bytes without TC (longer than advertised, still one valid datagram)
 }
+
+// proxy kinds of the resolver's UDP client (udpPlan.Proxy)
+const (
+	proxyNone   = iota
+	proxySSNone // direct.NewShadowsocksNoneUDPClient: [SOCKS address][payload]
+	proxySocks5 // direct.Socks5UDPClientConfig: TCP control connection + [RSV RSV FRAG][SOCKS address][payload]
+)
+
+var proxyNames = []string{"direct", "ss-none", "socks5"}
 
 type udpLookup struct {
 	Datagrams      []udpDatagram
-	WaitRetransmit bool // answer only once a retransmitted query has arrived (about 2 s)
-	LostQueries    int  // the first k queries of each family are lost on the way to the upstream (2 s each)
-	LostReplies    int  // the upstream's first k rounds of replies are lost on the way back (2 s each)
-	Silent         bool // never answer over UDP (thorough only: 20 s)
-	MustSucceed    bool // the TCP side is healthy and complete: whatever UDP does, the lookup has to succeed
-	OpenEnded      bool // the datagrams leave a query unanswered without truncation (thorough only: 20 s)
+	WaitRetransmit bool  // answer only once a retransmitted query has arrived (about 2 s)
+	LostQueries    int   // the first k queries of each family are lost on the way to the upstream (2 s each)
+	LostReplies    int   // the upstream's first k rounds of replies are lost on the way back (2 s each)
+	Silent         bool  // never answer over UDP (thorough only: 20 s)
+	MustSucceed    bool  // the TCP side is healthy and complete: whatever UDP does, the lookup has to succeed
+	OpenEnded      bool  // the datagrams leave a query unanswered without truncation (thorough only: 20 s)
+	MaxMs          int64 // > 0: liveness bound of this lookup instead of the general promptBound (retransmission schedule)
 	TCP            lookupScript
 }
 
@@ -69,8 +82,13 @@ type udpPlan struct {
 	// Mutating: the resolver's UDP client is the harness sealing client (udpcodec_test.go), whose
 	// packer rewrites the message bytes in place; otherwise the pass-through direct client.
 	Mutating bool
-	Name     string // name looked up ("" = udp.verif.test)
-	L        [2]udpLookup
+	// Proxy != 0: the resolver's UDP client is one of the repository's proxying clients, pointed at
+	// the fake upstream's socket, which plays the proxy server: it strips the per-packet framing of
+	// every query (and checks the target address in it) and adds it to every reply. The resolver is
+	// then configured with a DNS server address that exists only inside the framing (192.0.2.53:53).
+	Proxy int
+	Name  string // name looked up ("" = udp.verif.test)
+	L     [2]udpLookup
 }
 
 // answerRound is the number of queries per family the upstream has to see before its replies
@@ -92,7 +110,10 @@ type udpServer struct {
 	ap             netip.AddrPort
 	name           string
 	scripts        []udpLookup
-	sealed         bool // the resolver uses the sealing client: datagrams are sealed packets
+	sealed         bool           // the resolver uses the sealing client: datagrams are sealed packets
+	proxy          int            // the resolver uses a proxying client: datagrams carry that client's framing
+	dnsAP          netip.AddrPort // the address the resolver is configured with (== ap unless proxy != 0)
+	ctl            net.Listener   // socks5: the TCP control connection's listener
 
 	mu         sync.Mutex
 	ids        map[int]uint16
@@ -110,7 +131,7 @@ func listenLoopback(ip netip.Addr, port uint16) (*net.UDPConn, error) {
 	return net.ListenUDP("udp4", net.UDPAddrFromAddrPort(netip.AddrPortFrom(ip, port)))
 }
 
-func newUDPServer(name string, scripts []udpLookup, sealed bool) (*udpServer, error) {
+func newUDPServer(name string, scripts []udpLookup, sealed bool, proxy int) (*udpServer, error) {
 	lo1 := netip.AddrFrom4([4]byte{127, 0, 0, 1})
 	lo2 := netip.AddrFrom4([4]byte{127, 0, 0, 2})
 	var lastErr error
@@ -134,6 +155,19 @@ func newUDPServer(name string, scripts []udpLookup, sealed bool) (*udpServer, er
 		}
 		s := &udpServer{pc: pc, fport: fport, fip: fip, ap: netip.AddrPortFrom(lo1, ap.Port()), name: name, scripts: scripts, sealed: sealed,
 			ids: map[int]uint16{}, syncCh: make(chan struct{}, 4), done: make(chan struct{})}
+		s.proxy, s.dnsAP = proxy, s.ap
+		if proxy != proxyNone {
+			s.dnsAP = serverAP
+		}
+		if proxy == proxySocks5 {
+			if s.ctl, err = net.Listen("tcp4", "127.0.0.1:0"); err != nil {
+				pc.Close()
+				fip.Close()
+				fport.Close()
+				return nil, err
+			}
+			go s.serveSocks5Control()
+		}
 		go s.run()
 		return s, nil
 	}
@@ -150,7 +184,79 @@ func (s *udpServer) idSnapshot() map[int]uint16 {
 	return out
 }
 
+// serveSocks5Control plays the TCP side of SOCKS5 UDP ASSOCIATE (RFC 1928): method negotiation,
+// the request, a reply naming the UDP socket; the connection then stays open until the client ends it.
+func (s *udpServer) serveSocks5Control() {
+	for {
+		c, err := s.ctl.Accept()
+		if err != nil {
+			return
+		}
+		go func() {
+			defer c.Close()
+			c.SetDeadline(time.Now().Add(60 * time.Second))
+			b := make([]byte, 512)
+			if _, err := io.ReadFull(c, b[:2]); err != nil || b[0] != 5 {
+				return
+			}
+			if _, err := io.ReadFull(c, b[:int(b[1])]); err != nil {
+				return
+			}
+			c.Write([]byte{5, 0})
+			if _, err := io.ReadFull(c, b[:4]); err != nil || b[1] != 3 {
+				return
+			}
+			n := 0
+			switch b[3] {
+			case 1:
+				n = 4 + 2
+			case 4:
+				n = 16 + 2
+			case 3:
+				if _, err := io.ReadFull(c, b[:1]); err != nil {
+					return
+				}
+				n = int(b[0]) + 2
+			}
+			if _, err := io.ReadFull(c, b[:n]); err != nil {
+				return
+			}
+			ip := s.ap.Addr().As4()
+			c.Write([]byte{5, 0, 0, 1, ip[0], ip[1], ip[2], ip[3], byte(s.ap.Port() >> 8), byte(s.ap.Port())})
+			c.Read(b) // until the client closes
+		}()
+	}
+}
+
+// proxyHeader is the framing a proxy server puts in front of a payload that came from src.
+func proxyHeader(kind int, src netip.AddrPort) []byte {
+	var b []byte
+	if kind == proxySocks5 {
+		b = append(b, 0, 0, 0)
+	}
+	ip := src.Addr().As4()
+	b = append(b, 1, ip[0], ip[1], ip[2], ip[3], byte(src.Port()>>8), byte(src.Port()))
+	return b
+}
+
+// stripProxyHeader removes the client's framing and returns the target address in it.
+func stripProxyHeader(kind int, b []byte) (target netip.AddrPort, msg []byte, err error) {
+	if kind == proxySocks5 {
+		if len(b) < 3 || b[0] != 0 || b[1] != 0 || b[2] != 0 {
+			return target, nil, errors.New("bad SOCKS5 UDP request header")
+		}
+		b = b[3:]
+	}
+	if len(b) < 7 || b[0] != 1 {
+		return target, nil, errors.New("target address is not an IPv4 SOCKS address")
+	}
+	return netip.AddrPortFrom(netip.AddrFrom4([4]byte(b[1:5])), uint16(b[5])<<8|uint16(b[6])), b[7:], nil
+}
+
 func (s *udpServer) close() {
+	if s.ctl != nil {
+		s.ctl.Close()
+	}
 	s.pc.Close()
 	<-s.done
 	s.fport.Close()
@@ -193,6 +299,17 @@ func (s *udpServer) run() {
 			continue
 		}
 		msg := buf[:n]
+		if s.proxy != proxyNone {
+			target, m, err := stripProxyHeader(s.proxy, msg)
+			if err != nil || target != s.dnsAP {
+				s.mu.Lock()
+				s.nDatagrams++
+				s.badQ = fmt.Sprintf("datagram #%d from the resolver's %s client: framing error %v, target %v (configured server %v) raw=%x", s.nDatagrams, proxyNames[s.proxy], err, target, s.dnsAP, msg)
+				s.mu.Unlock()
+				continue
+			}
+			msg = m
+		}
 		if s.sealed {
 			ms, ml, err := openInPlace(buf, 0, n)
 			if err != nil {
@@ -252,6 +369,11 @@ func (s *udpServer) run() {
 				if d.It.Kind != kZeroLen {
 					b = wire(&d.It, s.name, ids)
 				}
+				if (len(b) > 1232 && !d.Over) || len(b) > 1472 { // would not fit the size the resolver advertises: generator error
+					s.mu.Lock()
+					s.oversize = len(b)
+					s.mu.Unlock()
+				}
 				if s.sealed {
 					b = seal(b)
 					if d.From == fromServerBadSeal {
@@ -265,10 +387,19 @@ func (s *udpServer) run() {
 				case fromForeignIP:
 					sock = s.fip
 				}
-				if len(b) > 1232+sealFront+sealRear { // would not fit the size the resolver advertises: generator error
-					s.mu.Lock()
-					s.oversize = len(b)
-					s.mu.Unlock()
+				if s.proxy != proxyNone {
+					// everything comes from the proxy server's socket; who sent the payload is what the
+					// framing says: the configured DNS server, or somebody else (same IP / other port,
+					// other IP / same port) - the resolver's own source check has to tell them apart
+					src := s.dnsAP
+					switch d.From {
+					case fromForeignPort:
+						src = netip.AddrPortFrom(src.Addr(), src.Port()+1)
+					case fromForeignIP:
+						src = netip.AddrPortFrom(netip.AddrFrom4([4]byte{192, 0, 2, 54}), src.Port())
+					}
+					sock = s.pc
+					b = append(proxyHeader(s.proxy, src), b...)
 				}
 				sock.WriteToUDPAddrPort(b, dst)
 			}
@@ -346,7 +477,37 @@ func realtimeScript(s lookupScript) lookupScript {
 	return s
 }
 
-func genUDPLookup(rt *rapid.T, ag *addrGen, mutating bool) udpLookup {
+// sizedAnswer is an acceptable answer to the query of family fam for name whose message is `size`
+// bytes long (or up to 12 bytes less when the rest is too small for a padding record): as many
+// address records as fit (70..74 A records for an everyday name), TTL 3600.
+func sizedAnswer(fam, size int, name string, opt bool, ag *addrGen) wmsg {
+	m := wmsg{QR: true, RA: true, RD: true, OPT: opt, PadTTL: 3600}
+	rrSize := 16
+	if fam == 6 {
+		rrSize = 28
+	}
+	room := size - 12 - (len(name) + 2 + 4)
+	if opt {
+		room -= 11
+	}
+	n := max(1, room/rrSize)
+	for range n {
+		r := rr{Type: tA, TTL: 3600}
+		if fam == 6 {
+			r.Type = tAAAA
+			r.Addr = ag.v6(false)
+		} else {
+			r.Addr = ag.v4(false)
+		}
+		m.Answers = append(m.Answers, r)
+	}
+	if room-n*rrSize >= 13 {
+		m.PadTo = size
+	}
+	return m
+}
+
+func genUDPLookup(rt *rapid.T, ag *addrGen, mutating bool, proxy int, name string) udpLookup {
 	var l udpLookup
 	n := rapid.IntRange(0, 7).Draw(rt, "nDatagrams")
 	spoofFirst := rapid.Bool().Draw(rt, "spoofFirst")
@@ -366,6 +527,14 @@ func genUDPLookup(rt *rapid.T, ag *addrGen, mutating bool) udpLookup {
 			d.It = item{Kind: kResp, Fam: fam, Msg: genUDPMsg(rt, fam, ag, true)}
 		case k < 7: // acceptable answer from the server
 			d.It = item{Kind: kResp, Fam: fam, Msg: genUDPMsg(rt, fam, ag, false)}
+			switch sz := rapid.IntRange(0, 5).Draw(rt, "answerSize"); {
+			case sz <= 1: // close to the advertised EDNS(0) size, from below
+				d.Near = true
+				d.It.Msg = sizedAnswer(fam, rapid.SampledFrom([]int{1200, 1216, 1225, 1230, 1231, 1232, 1232}).Draw(rt, "nearSize"), name, rapid.Bool().Draw(rt, "opt"), ag)
+			case sz == 2 && proxy == proxyNone && !mutating: // longer than advertised, no TC, still fits the client's packet size
+				d.Over = true
+				d.It.Msg = sizedAnswer(fam, rapid.SampledFrom([]int{1233, 1234, 1280, 1400, 1452, 1471, 1472}).Draw(rt, "overSize"), name, rapid.Bool().Draw(rt, "opt"), ag)
+			}
 		case k < 12: // spoofed: right ID, foreign source, poison addresses
 			d.From = rapid.SampledFrom([]int{fromForeignPort, fromForeignIP}).Draw(rt, "foreign")
 			d.It = item{Kind: kResp, Fam: fam, Msg: genUDPMsg(rt, fam, ag, true)}
@@ -396,7 +565,7 @@ func genUDPLookup(rt *rapid.T, ag *addrGen, mutating bool) udpLookup {
 	acc := map[int]bool{}
 	for i := range l.Datagrams {
 		d := &l.Datagrams[i]
-		if d.From == fromServer && usableUDP(&d.It) {
+		if d.From == fromServer && usableUDP(&d.It) && !d.Over { // a resolver may ignore an over-long datagram
 			acc[d.It.Fam] = true
 		}
 	}
@@ -417,8 +586,13 @@ func genUDPLookup(rt *rapid.T, ag *addrGen, mutating bool) udpLookup {
 		} else {
 			for _, f := range missing {
 				it := item{Kind: kResp, Fam: f, Msg: genUDPMsg(rt, f, ag, false)}
-				compressOwners(&it.Msg)
-				l.Datagrams = append(l.Datagrams, udpDatagram{It: it, GapMs: 1})
+				d := udpDatagram{It: it, GapMs: 1}
+				if rapid.IntRange(0, 2).Draw(rt, "finishNear") == 0 {
+					d.Near = true
+					d.It.Msg = sizedAnswer(f, rapid.SampledFrom([]int{1200, 1229, 1232}).Draw(rt, "nearSize"), name, false, ag)
+				}
+				compressOwners(&d.It.Msg)
+				l.Datagrams = append(l.Datagrams, d)
 			}
 		}
 	}
@@ -478,6 +652,8 @@ type udpExpect struct {
 	entry *entry // nil: failure expected
 	big   int    // size of the largest padded (TCP) answer among the accepted responses
 	dials int    // -1: any
+	near  bool   // an answer of 1200..1232 bytes was accepted over UDP in this reading
+	over  bool   // an over-long answer (1233..1472 bytes, no TC) was accepted over UDP in this reading
 	why   string // why this variant was rejected
 }
 
@@ -487,9 +663,26 @@ type udpExpect struct {
 // the property text does not fix which, so every break point is a variant. Each variant is
 // completed by the reference evaluation of the TCP phase over what the TCP upstream observed.
 func evalUDPVariants(name string, l *udpLookup, useTCP bool, obs []*connObs, t0, t1 time.Time) []udpExpect {
+	out := evalUDPVariantsOver(name, l, useTCP, obs, t0, t1, false)
+	for i := range l.Datagrams {
+		if d := &l.Datagrams[i]; d.Over && d.From == fromServer {
+			// Nothing documents what happens to a valid response that is longer than the advertised
+			// size but fits the client's packet size: using it and ignoring it are both admissible.
+			return append(out, evalUDPVariantsOver(name, l, useTCP, obs, t0, t1, true)...)
+		}
+	}
+	return out
+}
+
+func evalUDPVariantsOver(name string, l *udpLookup, useTCP bool, obs []*connObs, t0, t1 time.Time, skipOver bool) []udpExpect {
 	var serverIdx []int
+	var skipped []*item
 	for i := range l.Datagrams {
 		if l.Datagrams[i].From == fromServer {
+			if skipOver && l.Datagrams[i].Over {
+				skipped = append(skipped, &l.Datagrams[i].It)
+				continue
+			}
 			serverIdx = append(serverIdx, i)
 		}
 	}
@@ -505,7 +698,7 @@ func evalUDPVariants(name string, l *udpLookup, useTCP bool, obs []*connObs, t0,
 	var out []udpExpect
 	for _, bp := range breakPoints {
 		acc := map[int]*item{}
-		var left []*item // unusable datagrams from the server the resolver may have looked into
+		left := append([]*item(nil), skipped...) // unusable datagrams from the server the resolver may have looked into
 		if !l.Silent {
 			for _, i := range serverIdx {
 				it := &l.Datagrams[i].It
@@ -523,7 +716,13 @@ func evalUDPVariants(name string, l *udpLookup, useTCP bool, obs []*connObs, t0,
 				}
 			}
 		}
-		x := udpExpect{desc: fmt.Sprintf("udp-phase-ends-at-datagram=%d", bp)}
+		x := udpExpect{desc: fmt.Sprintf("udp-phase-ends-at-datagram=%d over-long-ignored=%v", bp, skipOver)}
+		for i := range l.Datagrams {
+			if d := &l.Datagrams[i]; acc[d.It.Fam] == &d.It {
+				x.near = x.near || d.Near
+				x.over = x.over || d.Over
+			}
+		}
 		if acc[4] != nil && acc[6] != nil {
 			x.entry = buildEntry(acc, t0, t1, left...)
 			x.dials = 0
@@ -556,7 +755,9 @@ var recUDP = ev.New("C17", "udp-loopback",
 		"truncated answers (then the TCP side usually carries a large answer padded to 512..65535 bytes), foreign-ID/garbage/QR=0/RA=0/short/cut/empty datagrams from the server; optionally the server answers only a retransmitted query; then a second lookup of the "+
 		"same name (cache hit expected for TTL>=3600, fresh answers expected after a failure). Non-trivial: a spoofed datagram arrives before the lookup is complete AND (TCP fallback "+
 		"happened or an unusable server datagram was sent); distinct key = datagram class string + outcome").
-	Require("udp-client-mutates-payload", "first-datagram-lost/answered-on-retransmission", "retransmission-through-mutating-client", "name-length>=243", "failure-is-ErrLookup", "tc-udp-then-tcp-answer>1234B", "spoofed-before-complete", "tcp-fallback", "truncated-udp", "udp-complete", "second-lookup-cache-hit", "second-lookup-after-failure", "foreign-ip", "foreign-port")
+	Require("proxy-client-ss-none", "proxy-client-socks5", "udp-answer-1200..1232B-accepted", "udp-answer-1200..1232B-through-ss-none", "udp-answer-1200..1232B-through-socks5",
+		"udp-overlong-1233..1472B-no-tc-sent", "udp-answered-after-k-lost=1", "udp-answered-after-k-lost=2", "udp-answered-after-k-lost=3", "udp-answered-after-k-lost=5",
+		"udp-client-mutates-payload", "first-datagram-lost/answered-on-retransmission", "retransmission-through-mutating-client", "name-length>=243", "failure-is-ErrLookup", "tc-udp-then-tcp-answer>1234B", "spoofed-before-complete", "tcp-fallback", "truncated-udp", "udp-complete", "second-lookup-cache-hit", "second-lookup-after-failure", "foreign-ip", "foreign-port")
 
 func runUDPPlan(t *testing.T, p *udpPlan) (viol string, labels map[string]bool, key string) {
 	labels = map[string]bool{}
@@ -567,13 +768,13 @@ func runUDPPlan(t *testing.T, p *udpPlan) (viol string, labels map[string]bool, 
 	for _, l := range nameLabels(name) {
 		labels[l] = true
 	}
-	srv, err := newUDPServer(name, p.L[:], p.Mutating)
+	srv, err := newUDPServer(name, p.L[:], p.Mutating, p.Proxy)
 	if err != nil {
 		return harnessTrouble + "cannot bind loopback sockets: " + err.Error(), labels, ""
 	}
 	defer srv.close()
 	up := &tcpUpstream{idSource: srv.idSnapshot}
-	rc := dns.ResolverConfig{Name: "verif-udp", AddrPort: srv.ap, UDPClientName: "u", CacheSize: 4}
+	rc := dns.ResolverConfig{Name: "verif-udp", AddrPort: srv.dnsAP, UDPClientName: "u", CacheSize: 4}
 	tcpMap := map[string]netio.StreamClient{}
 	if p.UseTCP {
 		rc.TCPClientName = "t"
@@ -583,6 +784,17 @@ func runUDPPlan(t *testing.T, p *udpPlan) (viol string, labels map[string]bool, 
 	if p.Mutating {
 		udpMap["u"] = sealingUDPClient{}
 		labels["udp-client-mutates-payload"] = true
+	}
+	switch p.Proxy {
+	case proxySSNone:
+		udpMap["u"] = direct.NewShadowsocksNoneUDPClient("verif-ss-none", "ip4", conn.AddrFromIPPort(srv.ap), 1500, conn.DefaultUDPClientListenConfig)
+	case proxySocks5:
+		cfg := direct.Socks5UDPClientConfig{Logger: zap.NewNop(), Name: "verif-socks5", NetworkTCP: "tcp4", NetworkIP: "ip4",
+			Address: srv.ctl.Addr().String(), Dialer: conn.DefaultTCPDialer, MTU: 1500, ListenConfig: conn.DefaultUDPClientListenConfig}
+		udpMap["u"] = cfg.NewClient()
+	}
+	if p.Proxy != proxyNone {
+		labels["proxy-client-"+proxyNames[p.Proxy]] = true
 	}
 	sr, err := rc.NewSimpleResolver(tcpMap, udpMap, zap.NewNop())
 	if err != nil {
@@ -597,6 +809,13 @@ func runUDPPlan(t *testing.T, p *udpPlan) (viol string, labels map[string]bool, 
 		for i := range l.Datagrams {
 			d := &l.Datagrams[i]
 			c := "s"
+			if d.Near {
+				c = "s~1232B"
+			}
+			if d.Over {
+				c = "s>1232B"
+				labels["udp-overlong-1233..1472B-no-tc-sent"] = true
+			}
 			switch d.From {
 			case fromForeignPort:
 				c = "p"
@@ -642,8 +861,8 @@ func runUDPPlan(t *testing.T, p *udpPlan) (viol string, labels map[string]bool, 
 		}
 		srv.mu.Unlock()
 		ctxs := func() string {
-			return fmt.Sprintf("lookup=%d useTCP=%v datagrams=[%s] tcp=%v dur=%v out{%s} lookupsSeenByUDPUpstream=%d queries=%v tcpConns=%d",
-				k, p.UseTCP, keyb.String(), describeScript(&l.TCP), t1.Sub(t0), out, reached, nq, len(obs))
+			return fmt.Sprintf("lookup=%d udp-client=%s(payload-rewriting=%v) useTCP=%v datagrams=[%s] tcp=%v dur=%v out{%s} lookupsSeenByUDPUpstream=%d queries=%v tcpConns=%d",
+				k, proxyNames[p.Proxy], p.Mutating, p.UseTCP, keyb.String(), describeScript(&l.TCP), t1.Sub(t0), out, reached, nq, len(obs))
 		}
 		if l.MustSucceed && out.isFailure() {
 			return "SIG=C17/udp-unanswered-or-unusable-but-healthy-tcp-retry-failed " + ctxs(), labels, ""
@@ -658,8 +877,12 @@ func runUDPPlan(t *testing.T, p *udpPlan) (viol string, labels map[string]bool, 
 		// to both queries or with a truncated answer to an open query, which is documented to
 		// trigger the TCP retry immediately; observed durations are milliseconds (2 s when the
 		// upstream waits for a retransmission), the UDP time limit is 20 s.
-		if !l.Silent && !l.OpenEnded && t1.Sub(t0) > promptBound {
-			return sigSlow + " " + ctxs(), labels, ""
+		bound := promptBound
+		if l.MaxMs > 0 {
+			bound = time.Duration(l.MaxMs) * time.Millisecond
+		}
+		if !l.Silent && !l.OpenEnded && t1.Sub(t0) > bound {
+			return fmt.Sprintf("%s bound=%v ", sigSlow, bound) + ctxs(), labels, ""
 		}
 		if out.hasPoison() {
 			return "SIG=C17/foreign-or-malformed-message-address-in-answer " + ctxs(), labels, ""
@@ -758,6 +981,15 @@ func runUDPPlan(t *testing.T, p *udpPlan) (viol string, labels map[string]bool, 
 					labels["udp-complete"] = true
 					keyb.WriteString("=> ok-via-udp ")
 				}
+				if x.near {
+					labels["udp-answer-1200..1232B-accepted"] = true
+					if p.Proxy != proxyNone {
+						labels["udp-answer-1200..1232B-through-"+proxyNames[p.Proxy]] = true
+					}
+				}
+				if x.over {
+					labels["udp-overlong-1233..1472B-no-tc-used"] = true
+				}
 			case x.entry == nil && out.isFailure():
 				if !out.isSentinel() {
 					return sigNotSentinel + " " + ctxs(), labels, ""
@@ -801,26 +1033,36 @@ func describeScript(s *lookupScript) string {
 func TestResolverUDP(t *testing.T) {
 	// One "UDP unanswered for the whole UDP wait, TCP healthy" case (about 20 s of real time) runs
 	// next to the generated scenarios so that the quick tier has it too.
-	fixed := make(chan string, 2)
+	fixed := make(chan string, 3)
 	go func() {
 		v, _ := runSilence(t, silenceScens[0])
 		fixed <- v
 	}()
 	// ... and so do the fixed "first datagrams lost, payload-rewriting client" cases (2 s + 4 s).
 	go func() { fixed <- runFixedLossScenarios(t) }()
+	// ... and the retransmission schedule: the first k = 1, 2, 3, 5 transmissions of each query are ignored
+	go func() { fixed <- runRetransmitSchedule(t) }()
 	defer func() {
 		if t.Failed() {
 			return
 		}
-		for range 2 {
+		for range 3 {
 			if v := <-fixed; v != "" && !strings.HasPrefix(v, harnessTrouble) {
 				t.Fatalf("%s", v)
 			}
 		}
 	}()
 	rapid.Check(t, func(rt *rapid.T) {
-		p := &udpPlan{UseTCP: rapid.IntRange(0, 5).Draw(rt, "useTCP") != 0, Name: genName(rt, 20), Mutating: rapid.Bool().Draw(rt, "mutatingClient")}
-		p.L[0] = genUDPLookup(rt, &addrGen{scope: 1}, p.Mutating)
+		p := &udpPlan{UseTCP: rapid.IntRange(0, 5).Draw(rt, "useTCP") != 0, Name: genName(rt, 20)}
+		switch rapid.IntRange(0, 3).Draw(rt, "udpClient") {
+		case 1:
+			p.Mutating = true
+		case 2:
+			p.Proxy = proxySSNone
+		case 3:
+			p.Proxy = proxySocks5
+		}
+		p.L[0] = genUDPLookup(rt, &addrGen{scope: 1}, p.Mutating, p.Proxy, p.Name)
 		p.L[1] = goodUDPLookup(&addrGen{scope: 2})
 		j := writeJournal("udp", p)
 		viol, labels, key := runUDPPlan(t, p)
@@ -987,4 +1229,71 @@ func runFixedLossScenarios(t *testing.T) string {
 		recUDP.Case(fmt.Sprintf("fixed-loss-%d|%s", i, key), true, ls...)
 	}
 	return ""
+}
+
+// retransmitInterval is what dns.go documents for the UDP senders: "Each sender will keep sending
+// at 2s intervals until done unblocks or after 10 iterations."
+const retransmitInterval = 2 * time.Second
+
+// runRetransmitSchedule: a UDP-ONLY resolver; the upstream ignores the first k transmissions of
+// each query (k = 1, 2, 3, 5) and answers transmission k+1, with answers of up to exactly 1232
+// bytes. The lookup has to return those answers after about k retransmission intervals: not
+// ErrLookup, and not only when the 20 s limit of the UDP phase runs out (bound: k*2 s + 2.5 s,
+// a missed bound is retried once). The four cases run in parallel, each through another UDP
+// client (socks5, ss-none, the sealing harness client, direct), next to the generated scenarios.
+func runRetransmitSchedule(t *testing.T) string {
+	type scen struct {
+		k, proxy int
+		mutating bool
+	}
+	scens := []scen{{1, proxySocks5, false}, {2, proxySSNone, false}, {3, proxyNone, true}, {5, proxyNone, false}}
+	res := make(chan string, len(scens))
+	for i, sc := range scens {
+		go func() {
+			name := makeName(60+i, i%3, uint64(31+i), 'r')
+			mk := func() *udpPlan {
+				p := &udpPlan{UseTCP: false, Mutating: sc.mutating, Proxy: sc.proxy, Name: name}
+				ag := &addrGen{scope: byte(11 + i)}
+				p.L[0] = udpLookup{LostQueries: sc.k, MaxMs: (time.Duration(sc.k)*retransmitInterval + 2500*time.Millisecond).Milliseconds()}
+				for _, f := range []int{6, 4} {
+					p.L[0].Datagrams = append(p.L[0].Datagrams, udpDatagram{Near: true, It: item{Kind: kResp, Fam: f, Msg: sizedAnswer(f, 1232-i, name, i%2 == 0, ag)}})
+				}
+				p.L[1] = goodUDPLookup(&addrGen{scope: byte(7)})
+				return p
+			}
+			start := time.Now()
+			viol, labels, key := runUDPPlan(t, mk())
+			if strings.HasPrefix(viol, sigSlow) {
+				start = time.Now()
+				viol, labels, key = runUDPPlan(t, mk()) // a missed real-time bound is retried once
+			}
+			el := time.Since(start)
+			if strings.HasPrefix(viol, harnessTrouble) {
+				res <- ""
+				return
+			}
+			if viol != "" {
+				res <- fmt.Sprintf("%s\n  (retransmission schedule: first %d transmissions of each query ignored, UDP-only resolver, %s client)", viol, sc.k, proxyNames[sc.proxy])
+				return
+			}
+			if !labels["udp-complete"] {
+				res <- fmt.Sprintf("SIG=C17/udp-retransmission-answered-but-lookup-not-completed-over-udp k=%d %s", sc.k, key)
+				return
+			}
+			ls := []string{"retransmission-schedule", fmt.Sprintf("udp-answered-after-k-lost=%d", sc.k)}
+			for l := range labels {
+				ls = append(ls, l)
+			}
+			recUDP.Case(fmt.Sprintf("retransmit-k=%d|%s", sc.k, key), true, ls...)
+			recUDP.Sample(map[string]any{"scenario": fmt.Sprintf("first %d transmissions ignored", sc.k), "elapsed_s": strconv.FormatFloat(el.Seconds(), 'f', 2, 64), "outcome": key})
+			res <- ""
+		}()
+	}
+	out := ""
+	for range scens {
+		if v := <-res; v != "" && out == "" {
+			out = v
+		}
+	}
+	return out
 }
